@@ -1,0 +1,31 @@
+//go:build verif
+
+package pubsub
+
+import "github.com/libp2p/go-libp2p/core/peer"
+
+// Verification hooks, compiled only with the "verif" build tag. A deterministic-simulation
+// harness sets the function variables below; when they are nil the hooks do nothing.
+
+const (
+	verifPopBeforeWait = iota
+	verifPopCancelBroadcastDone
+	verifSeqnoBeforeCommit
+)
+
+var (
+	verifYieldFn          func(point int)
+	verifObserveSendRPCFn func(p peer.ID, out *RPC)
+)
+
+func verifYield(point int) {
+	if f := verifYieldFn; f != nil {
+		f(point)
+	}
+}
+
+func verifObserveSendRPC(p peer.ID, out *RPC) {
+	if f := verifObserveSendRPCFn; f != nil {
+		f(p, out)
+	}
+}
